@@ -8,8 +8,14 @@ From Sophia.Common Require Export Prelude.
 Definition item := N.
 Definition err := N.
 
-(* a source = what an `Iterator<Item = Result<T, E>>` still has to yield *)
-Definition source := list (item + err).
+(* a source = the steps it still has to make.  One step (one call of try_for_some_item) hands
+   0, 1 or several items to the consumer and may then fail:
+   - `Iterator<Item = Result<T, E>>`: every step is ([x], None) or ([], Some e);
+   - a Rio parser (rio/src/parser.rs): parse_step calls the callback once per triple of the
+     statement just read (several for `;` and `,` lists) and then reports a syntax error, if any *)
+Definition source := list (list item * option err).
+Definition of_results (l : list (item + err)) : source :=
+  map (fun r => match r with inl x => ([x], None) | inr e => ([], Some e) end) l.
 
 (* StreamError / StreamResult<bool, _, _> *)
 Inductive outcome :=
@@ -38,29 +44,41 @@ Fixpoint wrap (chain : list adapter) (f : sink) : sink :=
   | AFilterMap m :: c => fun i st => match m i with None => (st, None) | Some o => wrap c f o st end
   end.
 
-(* Source for I: Iterator -- try_for_some_item *)
+(* one step: feed the batch to the (wrapped) consumer, stop at its first error; then the step's
+   own error, if any (RioStreamError::Sink / ::Source; for iterators the batch is a singleton) *)
+Fixpoint feed (g : sink) (items : list item) (st : St) : St * option err :=
+  match items with
+  | [] => (st, None)
+  | x :: r => let '(st', oe) := g x st in
+              match oe with Some e => (st', Some e) | None => feed g r st' end
+  end.
+
 Definition try_for_some (src : source) (chain : list adapter) (f : sink) (st : St)
   : source * St * outcome :=
   match src with
   | [] => ([], st, Done)
-  | inr e :: rest => (rest, st, SourceError e)
-  | inl x :: rest =>
-      let '(st', oe) := wrap chain f x st in
-      (rest, st', match oe with Some e => SinkError e | None => More end)
+  | (items, oe) :: rest =>
+      let '(st', se) := feed (wrap chain f) items st in
+      (rest, st', match se with
+                  | Some e => SinkError e
+                  | None => match oe with Some e => SourceError e | None => More end
+                  end)
   end.
 
-(* try_for_each_item: while self.try_for_some_item(&mut f)? {} ; the loop is structural on
-   the remaining source because each round consumes exactly one element *)
+(* try_for_each_item: while self.try_for_some_item(&mut f)? {} ; structural on the remaining
+   steps because each round consumes exactly one *)
 Fixpoint try_for_each (src : source) (chain : list adapter) (f : sink) (st : St)
   : source * St * outcome :=
   match src with
   | [] => ([], st, Done)
-  | inr e :: rest => (rest, st, SourceError e)
-  | inl x :: rest =>
-      let '(st', oe) := wrap chain f x st in
-      match oe with
+  | (items, oe) :: rest =>
+      let '(st', se) := feed (wrap chain f) items st in
+      match se with
       | Some e => (rest, st', SinkError e)
-      | None => try_for_each rest chain f st'
+      | None => match oe with
+                | Some e => (rest, st', SourceError e)
+                | None => try_for_each rest chain f st'
+                end
       end
   end.
 
@@ -83,20 +101,62 @@ Fixpoint through (chain : list adapter) (x : item) : option item :=
   | AFilterMap m :: c => match m x with None => None | Some y => through c y end
   end.
 
+(* feed the filter_map image of a batch to the bare consumer *)
+Fixpoint feed_spec (chain : list adapter) (f : sink) (items : list item) (st : St) : St * option err :=
+  match items with
+  | [] => (st, None)
+  | x :: r =>
+      match through chain x with
+      | None => feed_spec chain f r st
+      | Some y => let '(st', oe) := f y st in
+                  match oe with Some e => (st', Some e) | None => feed_spec chain f r st' end
+      end
+  end.
 Fixpoint spec (src : source) (chain : list adapter) (f : sink) (st : St) : source * St * outcome :=
   match src with
   | [] => ([], st, Done)
-  | inr e :: rest => (rest, st, SourceError e)
-  | inl x :: rest =>
-      match through chain x with
-      | None => spec rest chain f st
-      | Some y =>
-          let '(st', oe) := f y st in
-          match oe with
-          | Some e => (rest, st', SinkError e)
-          | None => spec rest chain f st'
-          end
+  | (items, oe) :: rest =>
+      let '(st', se) := feed_spec chain f items st in
+      match se with
+      | Some e => (rest, st', SinkError e)
+      | None => match oe with
+                | Some e => (rest, st', SourceError e)
+                | None => spec rest chain f st'
+                end
       end
+  end.
+
+(* ---------- MapSource / FilterMapSource as iterators (IntoIterator, map.rs / filter_map.rs) ----------
+   next(): take the pending buffer; while it is empty and the source may have more, run one
+   for_some_item step pushing Ok(mapped item) for each item, then Err(e) if the step failed
+   (which also ends the loop); put the buffer back and pop its front. *)
+Definition step_out (chain : list adapter) (stp : list item * option err) : list (item + err) :=
+  flat_map (fun x => match through chain x with Some y => [inl y] | None => [] end) (fst stp)
+  ++ match snd stp with Some e => [inr e] | None => [] end.
+Fixpoint fill (src : source) (chain : list adapter) : source * list (item + err) :=
+  match src with
+  | [] => ([], [])
+  | stp :: rest =>
+      match step_out chain stp with
+      | [] => fill rest chain               (* nothing produced, no error: loop again *)
+      | b => (rest, b)
+      end
+  end.
+Definition iter_next (chain : list adapter) (it : source * list (item + err))
+  : option (item + err) * (source * list (item + err)) :=
+  let '(src, buf) := it in
+  let '(src', buf') := match buf with [] => fill src chain | _ => (src, buf) end in
+  match buf' with
+  | [] => (None, (src', []))
+  | x :: b => (Some x, (src', b))
+  end.
+Fixpoint drain (fuel : nat) (chain : list adapter) (it : source * list (item + err)) : list (item + err) :=
+  match fuel with
+  | O => []
+  | S n => match iter_next chain it with
+           | (None, _) => []
+           | (Some x, it') => x :: drain n chain it'
+           end
   end.
 End Sink.
 
@@ -187,3 +247,11 @@ Definition run_remove (init : list item) (src : source) (chain : list adesc)
 Definition run_remove_ok init src chain (content : list item) (count : N) (o : out_kind) : bool :=
   let '(s, c, k) := run_remove init src chain in
   str_eqb (sortN s) (sortN content) && N.eqb c count && out_kind_eqb k o.
+
+(* draining MapSource/FilterMapSource::into_iter() *)
+Definition res_eqb (a b : item + err) : bool :=
+  match a, b with inl x, inl y | inr x, inr y => N.eqb x y | _, _ => false end.
+Definition total_out (src : source) : nat :=
+  fold_right (fun stp n => (length (fst stp) + 1 + n)%nat) 1%nat src.
+Definition drain_ok (src : source) (chain : list adesc) (observed : list (item + err)) : bool :=
+  list_eqb res_eqb (drain (total_out src) (map adapter_of chain) (src, [])) observed.
